@@ -10,6 +10,7 @@ mod exprs;
 mod cases;
 mod queries;
 mod validity;
+mod schemas;
 
 use std::collections::HashMap;
 
@@ -58,6 +59,7 @@ fn main() {
         "exprs" => exprs::main(&args),
         "queries" => queries::main(&args),
         "validity" => validity::main(&args),
+        "schemas" => schemas::main(&args),
         "validity-trace" => validity::trace_main(&args),
         other => {
             eprintln!("unknown command {}", other);
